@@ -129,8 +129,16 @@ def showCOut : COut → String
   | .returned r => s!"returned {showReply r}"
   | .blocked => "blocked"
 
+def showPreOut : PreOut → String
+  | .clean => "clean"
+  | .raised m => s!"raised {m}"
+  | .attributeError => "attributeError"
+  | .unexpected => "unexpected"
+
 def stepAll (st : St) (line : String) : St × String :=
   match (line.splitOn " ").filter (· ≠ "") with
+  | "predrain" :: ms =>
+    (st, match parseCMsgs ms with | some l => showPreOut (preDrain l) | none => "bad-op")
   | "recv" :: ms =>
     (st, match parseCMsgs ms with | some l => showCOut (recvHandle l none) | none => "bad-op")
   | ["bubble", m, depth, hops, cancelledAncestor, plainRte, msg] =>
